@@ -78,3 +78,62 @@ package adjRIBOut
 //@   requires a != nil && pfx != nil && p != nil && p.BGPPath != nil && a.pathIDManager != nil && spec_inv(a.pathIDManager)
 //@   call RoutingTable.AddPath args cpfx *bnet.Prefix, q *route.Path requires a.sessionAttrs.AddPathTX && cpfx == pfx && q == p && spec_hasHash(a.pathIDManager, verif_uf_str("ComputeHash", q.BGPPath)) && a.pathIDManager.idByPath[verif_uf_str("ComputeHash", q.BGPPath)] == q.BGPPath.PathIdentifier
 //@   call RouteTableClient.AddPath args cpfx *bnet.Prefix, q *route.Path requires cpfx == pfx && q == p
+
+// Property C09: export rules of the Adj-RIB-Out and the attribute rewrites that go
+// with them. (p is the session's private copy of the Loc-RIB path.)
+//@ spec
+//@ func spec_hasComm(p *route.Path, c uint32) bool {
+//@ 	if p.BGPPath == nil || p.BGPPath.Communities == nil {
+//@ 		return false
+//@ 	}
+//@ 	cs := *p.BGPPath.Communities
+//@ 	return verif_exists(0, len(cs), func(i int) bool { return cs[i] == c })
+//@ }
+//@ func spec_okBGP(p *route.Path) bool {
+//@ 	return p != nil && p.BGPPath != nil && p.BGPPath.BGPPathA != nil && p.BGPPath.ASPath != nil && p.BGPPath.BGPPathA.Source != nil
+//@ }
+//@ end
+
+// Not from one iBGP peer to a non-client iBGP peer; reflected routes carry an
+// ORIGINATOR_ID and a CLUSTER_LIST that starts with the local cluster ID.
+//@ contract (*AdjRIBOut).checkPropagateUpdateIBGP
+//@   props C09
+//@   requires a != nil && spec_okBGP(p) && a.sessionAttrs.IBGP
+//@   old ebgp bool = p.BGPPath.BGPPathA.EBGP
+//@   old redist bool = p.RedistributedFrom != 0
+//@   old oid uint32 = p.BGPPath.BGPPathA.OriginatorID
+//@   old src uint32 = p.BGPPath.BGPPathA.Source.ToUint32()
+//@   ensures propagate ==> retPath == p
+//@   ensures propagate && !redist && !a.sessionAttrs.RouteReflectorClient ==> ebgp
+//@   ensures propagate && !redist && a.sessionAttrs.RouteReflectorClient ==> p.BGPPath.ClusterList != nil && len(*p.BGPPath.ClusterList) >= 1 && (*p.BGPPath.ClusterList)[0] == a.sessionAttrs.ClusterID
+//@   ensures propagate && !redist && a.sessionAttrs.RouteReflectorClient ==> p.BGPPath.BGPPathA.OriginatorID == ite(oid != 0, oid, src)
+
+// To an eBGP peer that is not a route-server client: local ASN prepended, local
+// address as next hop. RFC 9234: nothing with OTC to a provider, peer or route
+// server; OTC added towards customers, peers and route-server clients.
+//@ contract (*AdjRIBOut).checkPropagateUpdateEBGP
+//@   props C09
+//@   requires a != nil && spec_okBGP(p)
+//@   old otc uint32 = p.BGPPath.BGPPathA.OnlyToCustomer
+//@   ensures propagate ==> retPath == p
+//@   ensures propagate && !a.sessionAttrs.RouteServerClient ==> p.BGPPath.BGPPathA.NextHop == a.sessionAttrs.LocalIP
+//@   ensures propagate && !a.sessionAttrs.RouteServerClient ==> p.BGPPath.ASPath != nil && len(*p.BGPPath.ASPath) >= 1 && len((*p.BGPPath.ASPath)[0].ASNs) >= 1 && (*p.BGPPath.ASPath)[0].ASNs[0] == a.sessionAttrs.LocalASN
+//@   ensures propagate && a.sessionAttrs.PeerRoleEnabled && a.sessionAttrs.PeerRoleAdvByPeer && (a.sessionAttrs.PeerRoleRemote == packet.PeerRoleRoleProvider || a.sessionAttrs.PeerRoleRemote == packet.PeerRoleRolePeer || a.sessionAttrs.PeerRoleRemote == packet.PeerRoleRoleRS) ==> otc == 0
+//@   ensures propagate && a.sessionAttrs.PeerRoleEnabled && a.sessionAttrs.PeerRoleAdvByPeer && (a.sessionAttrs.PeerRoleRemote == packet.PeerRoleRoleCustomer || a.sessionAttrs.PeerRoleRemote == packet.PeerRoleRolePeer || a.sessionAttrs.PeerRoleRemote == packet.PeerRoleRoleRSClient) ==> p.BGPPath.BGPPathA.OnlyToCustomer == ite(otc != 0, otc, a.sessionAttrs.LocalASN)
+
+// The rules together, as applied to every path offered to the session.
+//@ contract (*AdjRIBOut).checkPropagateUpdate
+//@   props C09
+//@   requires a != nil && pfx != nil && spec_okBGP(p) && a.sessionAttrs.PeerIP != nil
+//@   old ebgp bool = p.BGPPath.BGPPathA.EBGP
+//@   old redist bool = p.RedistributedFrom != 0
+//@   old otc uint32 = p.BGPPath.BGPPathA.OnlyToCustomer
+//@   old fromPeer bool = p.Type == route.BGPPathType && a.sessionAttrs.Type == route.BGPPathType && *p.BGPPath.BGPPathA.Source == *a.sessionAttrs.PeerIP
+//@   old noAdv bool = spec_hasComm(p, types.WellKnownCommunityNoAdvertise)
+//@   old noExp bool = spec_hasComm(p, types.WellKnownCommunityNoExport)
+//@   ensures propagate ==> retPath == p
+//@   ensures propagate ==> !noAdv && !fromPeer
+//@   ensures propagate && !a.sessionAttrs.IBGP ==> !noExp
+//@   ensures propagate && a.sessionAttrs.IBGP && !redist && !a.sessionAttrs.RouteReflectorClient ==> ebgp
+//@   ensures propagate && !a.sessionAttrs.IBGP && a.sessionAttrs.PeerRoleEnabled && a.sessionAttrs.PeerRoleAdvByPeer && (a.sessionAttrs.PeerRoleRemote == packet.PeerRoleRoleProvider || a.sessionAttrs.PeerRoleRemote == packet.PeerRoleRolePeer || a.sessionAttrs.PeerRoleRemote == packet.PeerRoleRoleRS) ==> otc == 0
+//@   ensures propagate && !a.sessionAttrs.IBGP && !a.sessionAttrs.RouteServerClient ==> p.BGPPath.BGPPathA.NextHop == a.sessionAttrs.LocalIP && len(*p.BGPPath.ASPath) >= 1 && len((*p.BGPPath.ASPath)[0].ASNs) >= 1 && (*p.BGPPath.ASPath)[0].ASNs[0] == a.sessionAttrs.LocalASN
